@@ -12,10 +12,15 @@
     1. [add_expr] on a [dd.bdd] manager is SAFE for arbitrary input:
        [Proofs/AddExprTotal.v] ([tsafe_add_expr], [add_expr_total],
        [add_expr_syntax_error], [dsafe_add_expr]).
-    2. the wrapper: any spellings, either outcome ([astep_expr_any]);
-       spellings of an accepted tree ([astep_expr_sem]).
+    2. the wrapper: any spellings, either outcome ([astep_expr_any]: the
+       outcome may be the [RuntimeError] of a full table, [max_nodes]);
+       spellings of an accepted tree, unbounded table ([astep_expr_sem],
+       hypothesis [max_nodes (mgr a) = None]).
     3. [to_expr] of a live handle is read-only and its text, added again,
-       gives a new handle on the same node ([astep_to_expr_live]). *)
+       gives a new handle on the same node ([astep_to_expr_live]; the
+       second half concludes success of [add_expr], hence
+       [max_nodes (mgr a) = None]; the read-only half alone is
+       [a_to_expr_live]). *)
 From stdpp Require Import strings.
 From DD Require Export AutorefInv2 AddExprTotal Driver4.
 Local Open Scope string_scope.
@@ -148,7 +153,7 @@ Theorem astep_expr_sem w m sp ts (t : Parser.ast) :
   let a := aworld_get w m in
   let w' := fst (astep_expr w m sp) in
   let a' := aworld_get w' m in
-  AInv a →
+  AInv a → max_nodes (mgr a) = None →
   lex sp = Some ts → parse code_prec ts = Some t → ok_ast (mgr a) t →
   ∃ u, snd (astep_expr w m sp) = Ok (VN (next_hid a)) ∧
     handles a !! next_hid a = None ∧
@@ -159,15 +164,15 @@ Theorem astep_expr_sem w m sp ts (t : Parser.ast) :
     (∀ k, hledger a' k = hledger a k + (if decide (k = absn u) then 1 else 0)) ∧
     (∀ m', m' ≠ m → aworld_get w' m' = aworld_get w m').
 Proof.
-  intros a w' a' HA Hlex Hparse Hok.
+  intros a w' a' HA Hmx Hlex Hparse Hok.
   destruct (astep_expr_any w m sp HA) as (HA'&Hk&He&Ho&Hout).
   fold a in Hk, He, Hout. fold w' in HA', Hk, He, Ho, Hout. fold a' in HA', Hk, He, Hout.
   destruct (astep_expr_spec w m sp) as (r&a1&E&Er&Ea&_).
   fold a in E. fold w' in Ea. fold a' in Ea. rewrite Er in *. clear Er.
   destruct (a_add_expr_run sp a r a1 HA E) as (ru&s1&Eu&Hs&Hl1&Hnr&HS&Hcase).
   pose proof HA as (HI&Hl&_).
-  destruct (add_expr_sem _ _ _ _ _ t (mgr a) ru s1 HI Hl Hlex Hparse Hok Eu)
-    as (u&->&HI1&_&_&Hu&HD).
+  destruct (add_expr_sem _ _ _ _ _ t (mgr a) ru s1 HI Hl Hmx Hlex Hparse Hok Eu)
+    as (u&->&HI1&_&_&_&Hu&HD).
   destruct Hcase as [(u'&[= <-]&_&->&Hfr&Ea1)|[(u'&[= <-]&Hnu&_)|(e&[=]&_)]]; [|done].
   destruct Hout as (u2&_&_&Hh&Hn&Hv2&HL).
   assert (u2 = u) as ->.
@@ -228,7 +233,7 @@ Proof. intros Hu. unfold a_to_expr. by rewrite node_of_bind, Hu. Qed.
 Theorem astep_to_expr_live w m h u :
   let a := aworld_get w m in
   let w' := fst (astep_to_expr w m h) in
-  AInv a → handles a !! h = Some u →
+  AInv a → max_nodes (mgr a) = None → handles a !! h = Some u →
   ∃ t : Parser.ast,
     snd (astep_to_expr w m h) = Ok (VS (expr_text t)) ∧
     aworld_get w' m = a ∧
@@ -247,7 +252,7 @@ Theorem astep_to_expr_live w m h u :
       (∀ ρ, denv (mgr a2) u ρ = denv (mgr a) u ρ) ∧
       (∀ k, hledger a2 k = hledger a k + (if decide (k = absn u) then 1 else 0)).
 Proof.
-  intros a w' HA Hu.
+  intros a w' HA Hmx Hu.
   destruct (a_to_expr_live h u a HA Hu) as (t&Et&Hok&Hsem&Hlex&Hparse&Hsplit).
   destruct (astep_to_expr_spec w m h) as (r&a1&E&Er&Ea&Eo).
   fold a in E. fold w' in Ea, Eo. rewrite Et in E. injection E as <- <-.
@@ -256,7 +261,8 @@ Proof.
   intros w1 Ew1 a2.
   assert (HA1 : AInv (aworld_get w1 m)) by (by rewrite Ew1).
   assert (Hok1 : ok_ast (mgr (aworld_get w1 m)) t) by (by rewrite Ew1).
-  destruct (astep_expr_sem w1 m (te_spellings t) (te_tokens t) t HA1 Hlex Hparse Hok1)
+  assert (Hmx1 : max_nodes (mgr (aworld_get w1 m)) = None) by (by rewrite Ew1).
+  destruct (astep_expr_sem w1 m (te_spellings t) (te_tokens t) t HA1 Hmx1 Hlex Hparse Hok1)
     as (x&Hr&Hfr&Hh&Hn&Hx&HD&HA2&Hk&He&HL&_).
   rewrite Ew1 in Hr, Hfr, Hh, Hn, HD, Hk, He, HL. fold a2 in Hh, Hn, Hx, HD, HA2, Hk, He, HL.
   destruct (Hk h u Hu) as (_&Hu2&HDu).
@@ -283,7 +289,7 @@ Qed.
 Theorem astep_to_expr_text w m h u :
   let a := aworld_get w m in
   let w' := fst (astep_to_expr w m h) in
-  AInv a → handles a !! h = Some u →
+  AInv a → max_nodes (mgr a) = None → handles a !! h = Some u →
   ∃ txt, snd (astep_to_expr w m h) = Ok (VS txt) ∧ aworld_get w' m = a ∧
     let a2 := aworld_get (fst (astep_expr w' m (split_formula txt))) m in
     snd (astep_expr w' m (split_formula txt)) = Ok (VN (next_hid a)) ∧
@@ -292,8 +298,8 @@ Theorem astep_to_expr_text w m h u :
     next_hid a ≠ h ∧ handles a2 !! h = Some u ∧ handles a2 !! next_hid a = Some u ∧
     AInv a2 ∧ AKeepAll a a2.
 Proof.
-  intros a w' HA Hu.
-  destruct (astep_to_expr_live w m h u HA Hu) as (t&Hr&Ea&_&_&_&_&_&Hsplit&Hrt).
+  intros a w' HA Hmx Hu.
+  destruct (astep_to_expr_live w m h u HA Hmx Hu) as (t&Hr&Ea&_&_&_&_&_&Hsplit&Hrt).
   fold a in Ea, Hrt. fold w' in Ea. exists (expr_text t). split; [done|]. split; [done|].
   rewrite Hsplit. destruct (Hrt w' Ea) as (?&Hfr&Hh&_&?&?&_).
   assert (Hne : next_hid a ≠ h) by (intros E; rewrite E in Hfr; congruence).
